@@ -26,6 +26,11 @@
 //	    deciding) and, without it, in the ordinary workers; the conservation
 //	    equalities are checked by each target's own stream goroutine and at
 //	    quiescence.
+//	(D) latconc / latrace: concurrent latency oracle. The clock is an atomic
+//	    counter advanced only by the single update stream and every sample is
+//	    stamped exactly L before it, so every value any refresh exports must be
+//	    L (within the averaging precision) whatever the interleaving of Compute
+//	    and UpdateReset; directly on latency.Latency and through the cache.
 package main
 
 import (
@@ -58,6 +63,8 @@ const (
 	modeCacheLat = "cachelat"
 	modeConc     = "conc"
 	modeRace     = "race"
+	modeLatConc  = "latconc"
+	modeLatRace  = "latrace"
 )
 
 // ---- virtual clocks (sequential modes only) ---------------------------------
@@ -67,6 +74,16 @@ var cacheClk, latClk int64
 func useVirtualClocks() {
 	cache.Now = func() time.Time { return time.Unix(0, cacheClk) }
 	latency.Now = func() time.Time { return time.Unix(0, latClk) }
+}
+
+// aclk is the clock of the concurrent latency trials: read atomically by
+// cache.Now / latency.Now, advanced only by the (single) update stream.
+var aclk int64
+
+func useAtomicClocks() {
+	f := func() time.Time { return time.Unix(0, atomic.LoadInt64(&aclk)) }
+	cache.Now = f
+	latency.Now = f
 }
 
 func useRealClocks() {
@@ -1711,7 +1728,9 @@ func concTrial(r *vlib.Run, mode string, rep int, rng *rand.Rand) {
 				}
 				recent = append(recent, desc)
 				if i%3 == 0 {
-					if !check(name, func() string { return fmt.Sprintf("after operation %d of its stream; last operations: %s", i, strings.Join(recent, " ")) }) {
+					if !check(name, func() string {
+						return fmt.Sprintf("after operation %d of its stream; last operations: %s", i, strings.Join(recent, " "))
+					}) {
 						return
 					}
 				}
@@ -1784,12 +1803,237 @@ func concTrial(r *vlib.Run, mode string, rep int, rng *rand.Rand) {
 	}
 }
 
+// ---- concurrent latency oracle ----------------------------------------------------------
+//
+// Under concurrency the sample set of a window is not known, but it can be
+// made irrelevant: the clock (cache.Now = latency.Now = an atomic counter) is
+// advanced ONLY by the single update stream, which stamps every update exactly
+// L before the value it just set. Every latency the code computes is then
+// exactly L (or one of {L1, L2}), whatever the interleaving of Compute (update
+// stream) with UpdateReset (refresh goroutine, and Reset on the stream), so
+// every value a refresh exports for any window must lie in [L1 - p, L2 + p],
+// and min/max must be one of the samples.
+
+type concLatCfg struct {
+	Through bool    `json:"through_cache"`
+	L1      int64   `json:"latency1_ns"`
+	L2      int64   `json:"latency2_ns"`
+	P       int64   `json:"avg_precision_ns"`
+	Period  int64   `json:"period_ns"`
+	Windows []int64 `json:"windows_ns"`
+	Samples int     `json:"samples"`
+}
+
+type concLatJudge struct {
+	cfg    concLatCfg
+	names  map[string]statKey
+	p      int64
+	judged int64
+	bad    *mismatch
+}
+
+func (j *concLatJudge) judge(name string, v int64, how string) {
+	k, ok := j.names[name]
+	if !ok {
+		if j.bad == nil {
+			j.bad = &mismatch{"latency-unknown-name", fmt.Sprintf("refresh set %q=%d, which is not the metadata name of any configured window statistic", name, v)}
+		}
+		return
+	}
+	j.judged++
+	if j.bad != nil {
+		return
+	}
+	c := j.cfg
+	sampleStr := fmt.Sprintf("every latency observed was exactly %d ns", c.L1)
+	if c.L2 != c.L1 {
+		sampleStr = fmt.Sprintf("every latency observed was exactly %d or %d ns", c.L1, c.L2)
+	}
+	if v < c.L1-j.p || v > c.L2+j.p {
+		j.bad = &mismatch{"latency-concurrent-out-of-bounds", fmt.Sprintf("%s exported %s of window %v = %d ns although %s (precision %d ns), while the update stream and the refresh ran concurrently", how, k.Typ, time.Duration(k.W), v, sampleStr, j.p)}
+		return
+	}
+	if k.Typ != latency.Avg && v != c.L1 && v != c.L2 {
+		j.bad = &mismatch{"latency-concurrent-minmax-not-a-sample", fmt.Sprintf("%s exported %s of window %v = %d ns although %s", how, k.Typ, time.Duration(k.W), v, sampleStr)}
+	}
+}
+
+// SetInt makes the judge a recording latency.Metadata (direct variant; only the
+// refresh goroutine calls UpdateReset there).
+func (j *concLatJudge) SetInt(name string, v int64) error {
+	j.judge(name, v, "UpdateReset")
+	return nil
+}
+
+func latConcTrial(r *vlib.Run, mode string, trial int, rng *rand.Rand) {
+	cfg := concLatCfg{Through: trial%2 == 1}
+	cfg.L1 = []int64{100000007, 250000000, 3000000000, 10000000000}[rng.Intn(4)]
+	cfg.L2 = cfg.L1
+	if rng.Intn(3) == 0 {
+		cfg.L2 = cfg.L1 + 1 + rng.Int63n(3)
+	}
+	cfg.P = []int64{0, 1, 7, 1000}[rng.Intn(4)]
+	cfg.Period = []int64{10, 50, 200}[rng.Intn(3)]
+	cfg.Windows = []int64{cfg.Period, cfg.Period * []int64{2, 5, 10, 25}[rng.Intn(4)]}
+	if rng.Intn(3) == 0 {
+		cfg.Windows = cfg.Windows[:1]
+	}
+	cfg.Samples = r.N(150000, 300000)
+	if cfg.Through {
+		cfg.Samples = r.N(40000, 80000)
+	}
+	if mode == modeLatRace {
+		cfg.Samples /= 2
+	}
+	delta := cfg.L2 - cfg.L1 + 1 + rng.Int63n(3) // update timestamps strictly increase
+	resetEvery := 400 + rng.Intn(3000)
+	r.SaveCurrent(map[string]interface{}{"mode": mode, "trial": trial, "config": cfg})
+
+	names, mm := nameTable(cfg.Windows)
+	if mm != nil {
+		r.Violation(mode, trial, mm.sig, mm.what, cfg)
+		return
+	}
+	j := &concLatJudge{cfg: cfg, names: names, p: cfg.P}
+	if j.p < 1 {
+		j.p = 1
+	}
+	atomic.StoreInt64(&aclk, 1000000000000)
+	useAtomicClocks()
+	defer useRealClocks() // every goroutine of the trial has been joined by then
+
+	var stop int32
+	var refreshes, samples int64
+	var pan atomic.Value
+	guard := func(f func()) func() {
+		return func() {
+			defer func() {
+				if x := recover(); x != nil {
+					pan.Store(fmt.Sprint(x))
+				}
+			}()
+			f()
+		}
+	}
+	lat := func(i int) int64 {
+		if i&1 == 1 {
+			return cfg.L2
+		}
+		return cfg.L1
+	}
+	var stream, refresh func()
+	var final func()
+	if !cfg.Through {
+		var ws []time.Duration
+		for _, w := range cfg.Windows {
+			ws = append(ws, time.Duration(w))
+		}
+		l := latency.New(ws, &latency.Options{AvgPrecision: time.Duration(cfg.P)})
+		stream = func() {
+			for i := 0; i < cfg.Samples; i++ {
+				now := atomic.AddInt64(&aclk, delta)
+				l.Compute(time.Unix(0, now-lat(i)))
+			}
+			atomic.AddInt64(&samples, int64(cfg.Samples))
+		}
+		refresh = func() {
+			for atomic.LoadInt32(&stop) == 0 {
+				l.UpdateReset(j)
+				refreshes++
+			}
+		}
+		final = func() { l.UpdateLast(j) }
+	} else {
+		var wstr []string
+		for _, w := range cfg.Windows {
+			wstr = append(wstr, time.Duration(w).String())
+		}
+		wopt, err := cache.WithLatencyWindows(wstr, time.Duration(cfg.Period))
+		if err != nil || wopt == nil {
+			r.Inconclusive(fmt.Sprintf("WithLatencyWindows(%v) refused: %v", wstr, err))
+			return
+		}
+		const tgt = "dev"
+		c := cache.New([]string{tgt}, wopt, cache.WithAvgLatencyPrecision(time.Duration(cfg.P))) // registers the names before any goroutine starts
+		md := c.Metadata()[tgt]
+		c.Sync(tgt)
+		stream = func() {
+			n := 0
+			for i := 0; i < cfg.Samples; i++ {
+				now := atomic.AddInt64(&aclk, delta)
+				c.GnmiUpdate(gen.Update(tgt, "", now-lat(i), nil, gen.Path(false, clatLeaves[i%len(clatLeaves)]...), gen.I(int64(i))))
+				n++
+				if i%resetEvery == resetEvery-1 {
+					// Reset refreshes the statistics on the stream goroutine.
+					c.Reset(tgt)
+					c.Sync(tgt)
+				}
+			}
+			atomic.AddInt64(&samples, int64(n))
+		}
+		observe := func(how string) {
+			for name := range names {
+				if v, err := md.GetInt(name); err == nil {
+					j.judge(name, v, how)
+				}
+			}
+		}
+		refresh = func() {
+			for atomic.LoadInt32(&stop) == 0 {
+				c.UpdateMetadata()
+				refreshes++
+				observe("Cache.Metadata() after a concurrent UpdateMetadata")
+			}
+		}
+		final = func() { c.UpdateMetadata(); observe("Cache.Metadata() after the final UpdateMetadata") }
+	}
+	var sw, rw sync.WaitGroup
+	sw.Add(1)
+	rw.Add(1)
+	go func() { defer sw.Done(); guard(stream)() }()
+	go func() { defer rw.Done(); guard(refresh)() }()
+	done := make(chan struct{})
+	go func() { sw.Wait(); atomic.StoreInt32(&stop, 1); rw.Wait(); close(done) }()
+	select {
+	case <-done:
+	case <-time.After(10 * time.Minute): // watchdog only
+		atomic.StoreInt32(&stop, 1)
+		r.Inconclusive("concurrent latency trial did not finish within the watchdog")
+		return
+	}
+	if x := pan.Load(); x != nil {
+		r.Violation(mode, trial, "panic:concurrent-latency", "panic under the concurrent latency workload: "+x.(string), cfg)
+		return
+	}
+	guard(final)()
+	r.Eval(1)
+	variant := "_direct"
+	if cfg.Through {
+		variant = "_through_cache"
+	}
+	r.Count(mode+"_samples", atomic.LoadInt64(&samples))
+	r.Count(mode+"_refreshes_concurrent", refreshes)
+	r.Count(mode+"_values_judged", j.judged)
+	r.Count(mode+variant+"_values_judged", j.judged)
+	r.Count(mode+variant+"_trials", 1)
+	if j.bad != nil {
+		r.Count(mode+variant+"_trials_violating", 1)
+		r.Violation(mode, trial, j.bad.sig, j.bad.what, map[string]interface{}{"config": cfg, "refreshes": refreshes})
+		return
+	}
+	if j.judged > 0 && refreshes > 1 {
+		r.Distinct(vlib.Hash(mode, trial, r.Seed))
+	}
+}
+
 // ---- driver ---------------------------------------------------------------------------
 
 func body(r *vlib.Run) {
 	if r.Race {
 		// Clocks are left alone: they are unsynchronised package variables.
 		r.ForTrials(modeRace, r.N(12, 40), func(rep int, rng *rand.Rand) { concTrial(r, modeRace, rep, rng) })
+		// The atomic clock of these trials is installed while no goroutine runs.
+		r.ForTrials(modeLatRace, r.N(6, 20), func(trial int, rng *rand.Rand) { latConcTrial(r, modeLatRace, trial, rng) })
 		return
 	}
 	useVirtualClocks()
@@ -1798,8 +2042,10 @@ func body(r *vlib.Run) {
 	r.ForTrials(modeCacheLat, r.N(3000, 40000), func(trial int, rng *rand.Rand) { cacheLatTrial(r, trial, rng) })
 	useRealClocks()
 	r.ForTrials(modeConc, r.N(96, 960), func(rep int, rng *rand.Rand) { concTrial(r, modeConc, rep, rng) })
+	r.ForTrials(modeLatConc, r.N(32, 320), func(trial int, rng *rand.Rand) { latConcTrial(r, modeLatConc, trial, rng) })
 	// Replay of a violation found by a race worker.
 	r.ForTrials(modeRace, 0, func(rep int, rng *rand.Rand) { concTrial(r, modeRace, rep, rng) })
+	r.ForTrials(modeLatRace, 0, func(trial int, rng *rand.Rand) { latConcTrial(r, modeLatRace, trial, rng) })
 }
 
 // Branches the oracle must have exercised for "held" to mean anything.
@@ -1810,6 +2056,7 @@ var mustSee = []string{
 	"latest_asserted_from_elem_encoding", "latest_asserted_from_element_encoding", "latest_asserted_from_prefix_only",
 	"meta_leaf_compared", "lat_values_judged", "lat_min_exact", "lat_max_exact", "cache_lat_values_judged",
 	"conc_quiescent_conservation_checks", "race_quiescent_conservation_checks", "race_update_metadata_calls_concurrent",
+	"latconc_direct_values_judged", "latconc_through_cache_values_judged", "latrace_direct_values_judged", "latrace_through_cache_values_judged",
 }
 
 func postMerge(tier string, counters map[string]int64) []string {
@@ -1829,6 +2076,7 @@ func main() {
 		Rule: "hist: seeded histories of 20-80 calls on 1-2 targets of a real cache.Cache under a virtual cache.Now (single updates in both path encodings, with elements in the prefix, prefix-only and origin-carried paths; exact/subtree/wildcard/whole-target deletes incl. ones covering meta/ leaves; multi-update, atomic and empty notifications; equal/older/newer/far-future timestamps with future threshold 0/5/25 ns; Sync, Connect, ConnectError, Reset, UpdateMetadata, UpdateSize), judged after EVERY step: targetLeaves = non-metadata leaves returned by Cache.Query = added - deleted; per-call classification on the counter deltas; latestTimestamp after UpdateMetadata; meta/ leaves = Cache.Metadata(); in half of the histories a twin cache receives each multi-update notification as its parts and must agree. " +
 			"lat: seeded schedules of 20-80 Compute / UpdateReset calls on a real latency.Latency (1-3 windows, precision 1-1000 ns, zero and negative latencies, irregular refresh times) with a recording latency.Metadata; cachelat: the same bound through cache.WithLatencyWindows/WithAvgLatencyPrecision after Sync. " +
 			"race/conc: one update goroutine per target (2-3) toggling Sync/Reset/Connect/ConnectError every 3-8 updates + UpdateMetadata + UpdateSize loops, under the race detector (race workers) and without. " +
+			"latconc/latrace: concurrent latency oracle — cache.Now/latency.Now read an atomic counter advanced only by the single update stream, every sample is stamped exactly L (or one of {L1,L2}) before it, so every min/avg/max any refresh exports must lie in [L1-p, L2+p] whatever the interleaving of Compute with UpdateReset; half of the trials drive a latency.Latency directly (Compute loop vs UpdateReset loop with a judging latency.Metadata), half go through the cache (synced target, GnmiUpdate stream with periodic Reset+Sync vs UpdateMetadata loop, values read from Cache.Metadata() after each refresh); with and without the race detector. " +
 			"A history counts as distinct non-trivial when the oracle judged in it at least one new leaf, one suppressed or stale update, one delete that removed a leaf, one lifecycle call and one latest-timestamp export; a latency schedule when at least one exported value was judged; a concurrent trial when refreshes and toggles overlapped the streams. Hashed by configuration and call list.",
 		Assumptions: []string{
 			"a leaf is 'metadata' iff the first element of its index path (origin, prefix elements, path elements) is \"meta\"; the update stream writes below meta/ only at names that are not registered metadata values (meta/x, meta/y/z) and deletes below meta/ only those, meta/connectError, meta, meta/* or everything — registered counters are driven through the lifecycle API only",
@@ -1838,12 +2086,13 @@ func main() {
 			"latency: S for window w at refresh time tau = samples of the refresh intervals (call order) that hold a sample and end after tau-w; only values a refresh sets are judged, never values it leaves in place; min/max are additionally required to be the smallest/largest sample of S where the package's '0 means unset' convention cannot interfere (max S > 0; no zero sample in S) — this is stronger than the bound in the statement and only applied with the recording Metadata, where S is known exactly",
 			"latency through the cache: S is the superset 'every non-metadata update submitted while the target was synced' (the cache does not sample stale or suppressed updates); values are observed as changes of Cache.Metadata() across UpdateMetadata; cache.Now lags latency.Now by 700 µs so a metadata update leaking into the statistics is visible",
 			"concurrent mode: wall clocks untouched, no clock-dependent oracle; each target has ONE stream goroutine (as in the collector) which is the only writer of its data leaves and of its eight counters, so conservation is judged by that goroutine between its own calls and again at quiescence; race reports are attributed when the access site of either stack lies in cache/cache.go, metadata/metadata.go or latency/latency.go",
+			"concurrent latency trials: one target and one stream per trial (latency.Now is one package variable, so only one goroutine may advance it if every latency is to be exactly L); L >= 1e8 ns so that one sample counted in a slot's sum but not in its count moves the average far beyond the precision",
 			"virtual clocks never run backwards",
 		},
 		QuickShards: 8, ThoroughShards: 16,
 		RaceShardsQuick: 3, RaceShardsThorough: 5,
-		RaceAnchors:  []string{"/cache/cache.go", "/metadata/metadata.go", "/latency/latency.go"},
-		RaceDeciding: true,
+		RaceAnchors:      []string{"/cache/cache.go", "/metadata/metadata.go", "/latency/latency.go"},
+		RaceDeciding:     true,
 		MinDistinctQuick: 10000, MinDistinctThorough: 150000,
 		PostMerge: postMerge,
 		Body:      body,
